@@ -24,7 +24,8 @@ func After(d time.Duration) *Chan[time.Time] {
 	return c
 }
 
-func Tick(d time.Duration) *Chan[time.Time] { panic("vs: time.Tick is not supported by the shim") }
+// Tick replaces time.Tick.
+func Tick(d time.Duration) *Chan[time.Time] { return NewTicker(d).C }
 
 // Sleep blocks the calling thread for d of virtual time.
 func Sleep(d time.Duration) {
